@@ -575,6 +575,14 @@ def _eq_guards(cx, b, bb):
     equal outcome"""
     out = set()
     for (sbb, succ, val) in U.dominating_branches(b, bb):
+        t_ = b.term(sbb)
+        if t_['k'] == 'switch' and t_.get('discr_ty') not in ('bool', None) and isinstance(val, list) and len(val) == 1:
+            # `match x.load(..) { 0 => .., _ => .. }`: the arm of the value itself
+            for o in b.origins(t_['discr']):
+                if o[0] == 'call':
+                    tt = b.term(o[1])
+                    if U.is_atomic_callee(tt['callee']) and U.callee_name(tt) == 'load' and len(b.origins(t_['discr'])) == 1:
+                        out.add((U.Site(b, o[1], tt).cls, val[0]))
         r = U.bool_outcome(b, sbb, val)
         if not r:
             continue
